@@ -32,7 +32,8 @@ def plan(tier, seed):
     specs = X.plan(tier, seed)
     reps = 2 if tier == 'quick' else 12
     for i in range(reps):
-        specs.append({'gen': 'real', 'rep': i, 'seed': seed, 'tier': tier})
+        for kind in ('pipe', 'fd', 'socket', 'popen', 'pty'):
+            specs.append({'gen': 'real', 'rep': i, 'kind': kind, 'seed': seed, 'tier': tier})
     specs.append({'gen': 'diag', 'seed': seed, 'tier': tier})
     n, k = (160, 4) if tier == 'quick' else (3000, 12)
     for i, (a, b) in enumerate(split_range(n, k)):
@@ -75,7 +76,7 @@ def outcome(child, fn):
 
 
 def real_cases(spec, acc):
-    for kind in ('pipe', 'fd', 'socket', 'popen', 'pty'):
+    for kind in ([spec['kind']] if spec.get('kind') else ('pipe', 'fd', 'socket', 'popen', 'pty')):
         for enc in (None, 'utf-8'):
             for listed in (False, True):
                 for entry in ('expect', 'expect_exact', 'expect_list'):
@@ -133,9 +134,12 @@ def real_case(case, acc):
         acc.count('pending_occurrence_checks')
         # 2. TIMEOUT while the peer is silent
         pats = [T('zzz')] + ([TIMEOUT, EOF] if listed else [])
-        r, exc, dt = outcome(c, lambda: call(c, entry, pats, 0.15))
+        # (with reads of 1-3 characters the rest of what the peer wrote takes several reads: the call must have the time
+        # to make them even when the machine stalls for a moment - text that has not been read yet is not pending text)
+        t2 = 0.15 if case.get('maxread', 2000) >= 100 else 2.0
+        r, exc, dt = outcome(c, lambda: call(c, entry, pats, t2))
         acc.count('marker_outcomes')
-        judge(v, c, r, exc, TIMEOUT, listed, 1, T(' world'), 'silent peer, timeout 0.15')
+        judge(v, c, r, exc, TIMEOUT, listed, 1, T(' world'), 'silent peer, timeout %g' % t2)
         # 2b. an empty pattern list ("just wait"): the time runs out -> exactly TIMEOUT, whatever it takes to say so
         r, exc, dt = outcome(c, lambda: call(c, entry, [], 0.05))
         acc.count('marker_outcomes')
